@@ -70,7 +70,7 @@ pub struct DocsRun<'w> {
     infos: BTreeMap<usize, ReplicaInfo>,
 }
 
-fn policy_json(p: &DownloadPolicy) -> Value {
+pub(crate) fn policy_json(p: &DownloadPolicy) -> Value {
     let (kind, fs) = match p {
         DownloadPolicy::NothingExcept(f) => ("only", f),
         DownloadPolicy::EverythingExcept(f) => ("except", f),
@@ -85,7 +85,7 @@ fn policy_json(p: &DownloadPolicy) -> Value {
     json!({"kind": kind, "filters": filters})
 }
 
-fn policy_of(v: &Value) -> DownloadPolicy {
+pub(crate) fn policy_of(v: &Value) -> DownloadPolicy {
     let filters: Vec<FilterKind> = v["filters"]
         .as_array()
         .unwrap()
